@@ -99,7 +99,7 @@ Section Conc.
     end.
 
   Definition sim_target (tbody : list stmt) (tape : list Z) (budget nops : nat) : option (list ev3) :=
-    match run_target c_aden c_cden c_tden c_kval c_yden (c_env nops) CFUEL tbody (start_w tape budget) with
+    match run_target c_aden c_cden c_tden c_kval c_yden (c_env nops) true CFUEL tbody (start_w tape budget) with
     | Some f => finish nops f
     | None => None
     end.
